@@ -58,7 +58,13 @@ def ev(e, env):
     if k == "lit":
         if e.get("t") == "bool":
             return bool(e["v"])
+        if e.get("t") in ("str", "char"):
+            return e["v"]
         raise Unknown("literal")
+    if k == "field":
+        if e.get("name") in env.get("$field", {}):
+            return env["$field"][e["name"]]
+        raise Unknown("field %s" % e.get("name"))
     if k == "path":
         if len(e["segs"]) == 1:
             n = e["segs"][0]
